@@ -28,6 +28,7 @@ BUILD = os.path.join(VERIF, 'build')
 REPO = os.environ.get('VERIF_REPO', '/repo')
 PY = '/venv/bin/python'
 GUARD = 'BRONZEBEARD_VERIF'
+WIDE_BUDGET_S = 420      # no further bounded round is started after this many seconds (source changed, nothing found yet)
 
 os.environ['PYTHONPATH'] = REPO
 os.environ['PYTHONHASHSEED'] = '0'
@@ -330,7 +331,10 @@ def do_check(pid, tier, seed):
         # executables
         exes = getattr(mod, 'EXES', ['bbmodel', 'bbspec'])
         # build the cone of the executables (Model / Spec files) too
-        need = []
+        # ALWAYS the whole of Base / Gen / Spec / Model: the correspondence evaluates model terms with coqc against these
+        # compiled files, and a .vo left over from a run on another tree (a Gen file changed and changed back) would make
+        # that evaluation fail with `inconsistent assumptions` -- a false alarm on a tree where the property holds
+        need = [f + 'o' for f in coq_files() if f.split('/')[0] in ('Base', 'Gen', 'Spec', 'Model')]
         for e in exes:
             for d in EXTRACT_SETS[e][2]:
                 need += [f + 'o' for f in coq_files() if f.startswith(d + '/')]
@@ -366,6 +370,43 @@ def do_check(pid, tier, seed):
             mod.explore(ctx)
         except Exception as e:
             broken.append('harness:{}'.format(repr(e)[:300]))
+    # The source differs from the one the bounded generators were sized on (tools/fingerprints.json) and nothing was found and
+    # nothing broke: this is no alarm, but code that is tied to the model by differential runs only has been edited, so the
+    # bounded search is repeated with further seeds before the check answers.
+    src_changed = []
+    if tier == 'quick' and os.environ.get('VERIF_NO_WIDE') != '1':
+        import fingerprint
+        src_changed = fingerprint.changed(REPO)
+    wide_rounds = 0
+    if src_changed and not broken and not ctx.counterexamples:
+        for extra in (1, 2, 3):
+            if time.time() - t0 > WIDE_BUDGET_S:
+                break
+            ctx.seed = seed + 7919 * extra
+            ctx.rng = random.Random(ctx.seed)
+            wide_rounds += 1
+            try:
+                mod.explore(ctx)
+            except Exception as e:
+                import traceback
+                traceback.print_exc()
+                broken.append('harness:{}'.format(repr(e)[:300]))
+            for c in ctx.corr_broken:
+                tag = 'correspondence:{}'.format(c['unit'])
+                if tag not in broken:
+                    broken.append(tag)
+            if broken or ctx.counterexamples:
+                break
+        ctx.seed = seed
+        if broken and not ctx.counterexamples:
+            ctx.deep = True
+            try:
+                mod.explore(ctx)
+            except Exception as e:
+                broken.append('harness:{}'.format(repr(e)[:300]))
+    if src_changed:
+        ctx.notes.append('source differs from tools/fingerprints.json in {}; {} further bounded round(s) with other seeds'.format(
+            ', '.join(src_changed[:12]), wide_rounds))
 
     known = load_known()
     findings = [f for f in known.get('findings', []) if f.get('property') == pid]
